@@ -16,6 +16,9 @@
  *                                       (message i carries n_i descriptors which arrive with its first byte;
  *                                       chunk sizes as in h_parse.c); queue_messages is retried while FALSE
  *   matchrule <warm> <x hex>            bus_match_rule_parse (NULL, text)
+ *   config <warm> <x hex text>          bus_config_load (scratch file holding the text, TRUE, NULL): what the parser's getters return (type, user,
+ *                                       addresses, mechanisms, service and include directories, every limit, flags, the
+ *                                       policy's verdict on a few uids) is dumped and compared with the fault-free dump
  *   END                                 prints the block count after the final dbus_shutdown
  * <warm> = 1: before the fault is armed a message is created and released, so that the message cache and
  * the global locks exist (0: the operation starts on a library that was just shut down).
@@ -37,6 +40,8 @@
 #include <dbus/dbus-string.h>
 #include <dbus/dbus-message-internal.h>
 #include <bus/signals.h>
+#include <bus/config-parser.h>
+#include <bus/policy.h>
 
 #define K_LIMIT 4000
 #define MAX_DEPTH 80
@@ -1064,6 +1069,124 @@ static int iter_matchrule (const char *text, int warm, int k, int nf)
   return fired;
 }
 
+/* ------------------------------------------------------------------ configuration file */
+
+static void json_str (FILE *f, const char *s)
+{
+  if (s == NULL) { fputs ("null", f); return; }
+  fputc ('"', f);
+  for (; *s; s++)
+    {
+      unsigned char c = (unsigned char) *s;
+      if (c == '"' || c == '\\') fprintf (f, "\\%c", c);
+      else if (c < 0x20 || c >= 0x7f) fprintf (f, "\\u%04x", c);
+      else fputc (c, f);
+    }
+  fputc ('"', f);
+}
+
+static void dump_strlist (FILE *f, const char *name, DBusList **list)
+{
+  DBusList *l;
+  int first = 1;
+  fprintf (f, ",\"%s\":[", name);
+  for (l = _dbus_list_get_first_link (list); l != NULL; l = _dbus_list_get_next_link (list, l))
+    {
+      if (!first) fputc (',', f);
+      first = 0;
+      json_str (f, l->data);
+    }
+  fputc (']', f);
+}
+
+static long blob_config (BusConfigParser *p)
+{
+  char *s; size_t sl; FILE *f;
+  BusLimits lim;
+  DBusList **dirs, *l;
+  BusPolicy *pol;
+  int first = 1;
+  f = open_memstream (&s, &sl);
+  fputs ("{\"type\":", f); json_str (f, bus_config_parser_get_type (p));
+  fputs (",\"user\":", f); json_str (f, bus_config_parser_get_user (p));
+  fputs (",\"pidfile\":", f); json_str (f, bus_config_parser_get_pidfile (p));
+  fputs (",\"servicehelper\":", f); json_str (f, bus_config_parser_get_servicehelper (p));
+  fprintf (f, ",\"fork\":%d,\"anon\":%d,\"syslog\":%d,\"keep_umask\":%d", (int) bus_config_parser_get_fork (p),
+           (int) bus_config_parser_get_allow_anonymous (p), (int) bus_config_parser_get_syslog (p), (int) bus_config_parser_get_keep_umask (p));
+  dump_strlist (f, "addresses", bus_config_parser_get_addresses (p));
+  dump_strlist (f, "mechanisms", bus_config_parser_get_mechanisms (p));
+  dump_strlist (f, "conf_dirs", bus_config_parser_get_conf_dirs (p));
+  dirs = bus_config_parser_get_service_dirs (p);
+  fputs (",\"service_dirs\":[", f);
+  for (l = _dbus_list_get_first_link (dirs); l != NULL; l = _dbus_list_get_next_link (dirs, l))
+    {
+      BusConfigServiceDir *d = l->data;
+      if (!first) fputc (',', f);
+      first = 0;
+      fprintf (f, "[%d,", (int) d->flags); json_str (f, d->path); fputc (']', f);
+    }
+  fputc (']', f);
+  memset (&lim, 0, sizeof lim);
+  bus_config_parser_get_limits (p, &lim);
+  fprintf (f, ",\"limits\":[%ld,%ld,%ld,%ld,%ld,%ld,%d,%d,%d,%d,%d,%d,%d,%d,%d,%d,%d,%d,%d,%d,%d]",
+           lim.max_incoming_bytes, lim.max_incoming_unix_fds, lim.max_outgoing_bytes, lim.max_outgoing_unix_fds,
+           lim.max_message_size, lim.max_message_unix_fds, lim.activation_timeout, lim.auth_timeout, lim.pending_fd_timeout,
+           lim.max_completed_connections, lim.max_incomplete_connections, lim.max_connections_per_user,
+           lim.max_pending_activations, lim.max_services_per_connection, lim.max_match_rules_per_connection,
+           lim.max_replies_per_connection, lim.reply_timeout, lim.max_containers, lim.max_containers_per_user,
+           lim.max_connections_per_container, lim.max_container_metadata_bytes);
+  /* the policy object is opaque: its verdict on a few identities (needs the user database, fault off) */
+  pol = bus_config_parser_steal_policy (p);
+  if (pol != NULL)
+    {
+      fprintf (f, ",\"allow_uid\":[%d,%d,%d,%d]", (int) bus_policy_allow_unix_user (pol, 0), (int) bus_policy_allow_unix_user (pol, 1),
+               (int) bus_policy_allow_unix_user (pol, 5), (int) bus_policy_allow_unix_user (pol, 65534));
+      bus_policy_unref (pol);
+    }
+  fputc ('}', f);
+  fclose (f);
+  return blob_intern (s, sl);
+}
+
+static int iter_config (void *pathv, int warm, int k, int nf)
+{
+  DBusString file;
+  DBusError err;
+  BusConfigParser *p, *p2 = NULL;
+  int fired, leak, fd0 = count_open_fds (), fd1;
+  long d = -1, d2 = -1;
+  char errname[128] = "", errname2[128] = "";
+  const char *path = pathv;
+  begin_run (k, nf, 0);
+  warm_up (warm);
+  _dbus_string_init_const (&file, path);
+  dbus_error_init (&err);
+  arm (k, nf);
+  p = bus_config_load (&file, TRUE, NULL, &err);
+  fired = disarm (k, nf);
+  if (dbus_error_is_set (&err)) snprintf (errname, sizeof errname, "%s", err.name);
+  dbus_error_free (&err);
+  if (p != NULL) { d = blob_config (p); bus_config_parser_unref (p); }
+  else
+    {
+      dbus_error_init (&err);
+      p2 = bus_config_load (&file, TRUE, NULL, &err);
+      if (dbus_error_is_set (&err)) snprintf (errname2, sizeof errname2, "%s", err.name);
+      dbus_error_free (&err);
+      if (p2 != NULL) { d2 = blob_config (p2); bus_config_parser_unref (p2); }
+    }
+  leak = end_run ();
+  fd1 = count_open_fds ();
+  printf ("{\"k\":%d,\"n\":%d,\"fired\":%d,\"leak\":%d,\"fd_delta\":%d,\"err\":", k, nf, fired, leak, fd1 - fd0);
+  if (errname[0]) printf ("\"%s\"", errname); else fputs ("null", stdout);
+  put_blob ("cfg", d);
+  put_blob ("retry", d2);
+  printf (",\"retried\":%d,\"retry_err\":", p == NULL);
+  if (errname2[0]) printf ("\"%s\"", errname2); else fputs ("null", stdout);
+  fputc ('}', stdout);
+  return fired;
+}
+
 /* ------------------------------------------------------------------ driver */
 
 typedef int (*IterFn) (void *ctx, int warm, int step, int k, int nf);
@@ -1093,6 +1216,7 @@ static int fn_copy (void *ctx, int warm, int step, int k, int nf) { BytesCtx *b 
 static int fn_demarshal (void *ctx, int warm, int step, int k, int nf) { BytesCtx *b = ctx; (void) step; return iter_demarshal (b->buf, b->n, warm, k, nf); }
 static int fn_loader (void *ctx, int warm, int step, int k, int nf) { (void) step; return iter_loader (ctx, warm, k, nf); }
 static int fn_matchrule (void *ctx, int warm, int step, int k, int nf) { (void) step; return iter_matchrule (ctx, warm, k, nf); }
+static int fn_config (void *ctx, int warm, int step, int k, int nf) { (void) step; return iter_config (ctx, warm, k, nf); }
 
 static void run_case (char *line)
 {
@@ -1175,6 +1299,25 @@ static void run_case (char *line)
           iter_matchrule (copy, warm, -1, 1);
           enumerate (fn_matchrule, copy, warm, 0);
           free (copy);
+        }
+      else printf ("{\"bad\":1}");
+    }
+  else if (strcmp (op, "config") == 0)
+    {
+      int bad = 0;
+      char *text = tok_str (t.tv[2], &bad);
+      if (text != NULL && !bad)
+        {
+          /* the configuration text is written to a scratch file (fault off) and removed afterwards */
+          char path[256];
+          int fd;
+          snprintf (path, sizeof path, "%s/verif-c14-conf-XXXXXX", getenv ("VERIF_RUNDIR") ? getenv ("VERIF_RUNDIR") : "/tmp");
+          fd = mkstemp (path);
+          if (fd < 0 || write (fd, text, strlen (text)) != (ssize_t) strlen (text)) { perror ("config scratch file"); exit (3); }
+          close (fd);
+          iter_config (path, warm, -1, 1);
+          enumerate (fn_config, path, warm, 0);
+          unlink (path);
         }
       else printf ("{\"bad\":1}");
     }
